@@ -285,6 +285,32 @@ class World08(World):
                 self.violate("V6-mutable", type(obj).__name__, bad[0], {"ways": bad})
                 return
         self.count("immutability_checked", len(parts[::step]))
+        # hostile caller on ACCESSOR results: whatever a property hands out must not be shared state
+        args_objs = [o for o in parts if type(o).__name__ == "Args"][:3]
+        if args_objs:
+            before_code = self.to_code_fp(r)
+            for a in args_objs:
+                out = sched._outcome(lambda: (list(a.parameters.items()), len(a)))
+                if out[0] != "ok":
+                    continue
+                snap1, n1 = out[1]
+                try:
+                    p1 = a.parameters
+                    p1.clear()
+                    p1["zz_scribbled"] = None
+                except Exception:
+                    pass
+                again = sched._outcome(lambda: (list(a.parameters.items()), len(a)))
+                twin = sched._outcome(lambda: list(type(a)(**{f.name: getattr(a, f.name) for f in dataclasses.fields(a)}).parameters.items()))
+                self.count("accessor_scribble_checked")
+                if again[0] != "ok" or again[1] != (snap1, n1) or twin[0] != "ok" or twin[1] != snap1:
+                    self.violate("V6-mutable", "Args", "parameters-shared-after-caller-mutation", {"before": repr(snap1)[:120], "after": repr(again)[:120]})
+                    return
+            self.code_fp_of.pop(r.id, None)
+            after_code = self.to_code_fp(r)
+            if before_code != after_code:
+                self.violate("V6-mutable", "Args", "to_code-changed-after-caller-mutated-parameters", {})
+                return
         if r.snap != snap("data", v):
             self.violate("V6-mutable", "CodeData", "changed-by-probe", {})
             return
